@@ -1,6 +1,7 @@
 import AITB.Model.Proto
 import AITB.Model.Cursor
 import AITB.Model.Factored
+import Driver.C10Util
 open AITB AITB.Cursor
 
 namespace DrvC10
@@ -50,5 +51,5 @@ def handle (toks : List String) : String :=
    | "range" :: rest => P.run range rest
    | "fgcopy" :: rest => some (fgcopy rest)
    | "crash" :: rest => P.run crash rest
-   | _ => none).getD "bad-op"
+   | _ => DrvC10Util.handle toks).getD "bad-op"
 end DrvC10
